@@ -8,6 +8,7 @@ pub mod c07;
 pub mod c08;
 pub mod c09;
 pub mod c10;
+pub mod c14_bytes;
 pub mod c15;
 pub mod debug;
 pub mod e1;
